@@ -173,6 +173,29 @@ fn run_cmd<S: Scenario>(scn: &S, args: &[String]) -> i32 {
     }
 }
 
+fn dump_cmd<S: Scenario>(scn: &S, args: &[String]) -> i32 {
+    let seed: u64 = arg(args, "--seed").and_then(|s| s.parse().ok()).unwrap_or(1);
+    let run: u64 = arg(args, "--run").and_then(|s| s.parse().ok()).unwrap_or(0);
+    let rs = rng::run_seed(seed, scn.tag(), run);
+    let ops = scn.generate(rs);
+    let mut fields = vec![
+        ("scenario", J::s(scn.tag())),
+        ("seed", J::u(seed)),
+        ("run", J::u(run)),
+        ("run_seed", J::u(rs)),
+        ("ops", J::Arr(ops.iter().map(|o| scn.op_to_json(o)).collect())),
+    ];
+    if args.iter().any(|a| a == "--exec") {
+        let out = scn.execute(&ops, true);
+        fields.push(("digest_portable", J::Str(format!("{:016x}", out.digest_portable))));
+        fields.push(("digest_std", J::Str(format!("{:016x}", out.digest_std))));
+        fields.push(("log", J::Arr(out.lines.iter().map(|l| J::Str(l.clone())).collect())));
+        fields.push(("violations", J::Arr(out.violations.iter().map(|v| J::s(v.check)).collect())));
+    }
+    println!("{}", J::obj(fields).to_string());
+    0
+}
+
 fn replay_cmd(path: &str) -> i32 {
     let doc = match scn::load_doc(path) {
         Ok(d) => d,
@@ -219,6 +242,16 @@ fn main() {
             Some("c12") => run_cmd(&C12Scn, &args),
             #[cfg(feature = "std-easy")]
             Some("io") => run_cmd(&IoScn, &args),
+            s => {
+                eprintln!("unknown scenario {:?}", s);
+                2
+            }
+        },
+        Some("dump") => match arg(&args, "--scenario") {
+            Some("c03") => dump_cmd(&C03Scn, &args),
+            Some("c12") => dump_cmd(&C12Scn, &args),
+            #[cfg(feature = "std-easy")]
+            Some("io") => dump_cmd(&IoScn, &args),
             s => {
                 eprintln!("unknown scenario {:?}", s);
                 2
